@@ -43,6 +43,8 @@ VERSIONED = ["type X = 1", "def f[T](): pass", "class A[T]: pass", "try:\n  a\ne
 
 
 def split_lines(src: str):
+    # parse_string reads the text with universal newlines (as CPython does)
+    src = src.replace("\r\n", "\n").replace("\r", "\n")
     parts = src.split("\n")
     lines = parts[:-1] if src.endswith("\n") else parts
     return lines or [""]
